@@ -30,16 +30,23 @@ class Config:
     skip_prob: float = 0.2
     seed: int = 0
     custom: bool = False  # register a custom node feature "score" and edge feature "weight"
+    thick: bool = False  # 3-D masks that contain a 2x2x2 cube (needed for 3-D ellipse axes)
+    big: bool = False  # arrays longer than one storage chunk (64) along time and y
+    p_empty: float = 0.15  # probability that a frame has no detection
+    npint: bool = False  # ids / times stored and passed as numpy integers (as a GUI does)
+    rename: tuple = ()  # (old_key, new_key) pairs of annotator features renamed after build
 
     def to_json(self):
         d = asdict(self)
         d["extra"] = list(self.extra)
+        d["rename"] = [list(x) for x in self.rename]
         return d
 
     @staticmethod
     def from_json(d):
         d = dict(d)
         d["extra"] = tuple(d.get("extra", ()))
+        d["rename"] = tuple(tuple(x) for x in d.get("rename", ()))
         return Config(**d)
 
     def scale_list(self):
@@ -48,9 +55,13 @@ class Config:
             return None
         if self.scale == "ones":
             return [1.0] * n
+        if self.scale == "tscale":  # a time scale other than 1 (must not enter any measure)
+            return [5.0, 0.5, 2.0] if n == 3 else [3.0, 2.0, 1.0, 0.5]
         return [1.0, 2.0, 0.5] if n == 3 else [1.0, 3.0, 2.0, 0.5]
 
     def frame_shape(self):
+        if self.big:
+            return (66, 4) if self.ndim == 3 else (2, 66, 3)
         return FRAME_2D if self.ndim == 3 else FRAME_3D
 
     def tag(self):
@@ -61,10 +72,11 @@ class Config:
 
 
 def random_config(rng: random.Random, *, seg=None, ndim=None, allow3d_shape=True,
-                  builds=("noids", "ids_fd", "df"), extras=True, p3d=0.25) -> Config:
+                  builds=("noids", "ids_fd", "df"), extras=True, p3d=0.25,
+                  ellipse3d=True) -> Config:
     nd = ndim if ndim is not None else (4 if rng.random() < p3d else 3)
     sg = seg if seg is not None else (rng.random() < 0.6)
-    scale = rng.choice(["none", "ones", "aniso"])
+    scale = rng.choice(["none", "ones", "aniso", "aniso", "tscale"])
     pos_mode = "single" if sg else rng.choice(["single", "single", "axes"])
     build = rng.choice(list(builds))
     if pos_mode == "axes" and build == "df":
@@ -73,14 +85,14 @@ def random_config(rng: random.Random, *, seg=None, ndim=None, allow3d_shape=True
     if sg and extras:
         for k in OPTIONAL_SEG_FEATURES:
             if rng.random() < (0.5 if k == "iou" else 0.3):
-                if scale == "aniso" and nd == 3 and k in ("perimeter", "circularity"):
+                if scale in ("aniso", "tscale") and nd == 3 and k in ("perimeter",
+                                                                         "circularity"):
                     continue  # scikit-image: NotImplementedError for 2-D anisotropic perimeter
                 if nd == 4 and k in ("perimeter", "circularity") and not allow3d_shape:
                     continue
-                if nd == 4 and k == "ellipse_axis_radii":
-                    # the library's 3-D inertia-tensor code raises 'math domain error' on
-                    # flat / collinear masks (rounding makes a principal moment negative);
-                    # a domain limit outside the 20 properties, so not generated
+                if nd == 4 and k == "ellipse_axis_radii" and not ellipse3d:
+                    # (before fix 754c0d9 the library's 3-D inertia-tensor code raised 'math
+                    # domain error' on flat / collinear masks; callers may still opt out)
                     continue
                 extra.append(k)
     return Config(
@@ -92,11 +104,30 @@ def random_config(rng: random.Random, *, seg=None, ndim=None, allow3d_shape=True
         extra=tuple(extra),
         T=rng.randint(3, 7),
         max_per_frame=rng.choice([2, 3, 3, 4]),
-        id_kind=rng.choice(["contig", "sparse"]),
+        id_kind=rng.choice(["contig", "sparse"] if sg else ["contig", "sparse", "zero"]),
         skip_prob=rng.choice([0.0, 0.2, 0.2, 0.5]),
         seed=rng.randrange(1 << 30),
         custom=rng.random() < 0.4,
+        # masks that contain a 2x2x2 cube and then grow: concave, with bounding boxes that
+        # overlap those of their neighbours
+        thick=(nd == 4 and sg and rng.random() < 0.5),
+        npint=rng.random() < 0.2,
+        rename=tuple(r for r in (("iou", "overlap"), ("area", "size"))
+                     if sg and rng.random() < 0.15 and (r[0] != "iou" or "iou" in extra)),
     )
+
+
+def big_config(rng: random.Random, seg=True) -> Config:
+    """A movie longer than one storage chunk (64 frames; rows > 64 as well) with few
+    detections, several of them beyond frame 64."""
+    cfg = random_config(rng, seg=seg, extras=False, p3d=0.3)
+    cfg.big = True
+    cfg.thick = False
+    cfg.T = rng.randint(66, 72)
+    cfg.max_per_frame = rng.choice([1, 2])
+    cfg.p_empty = rng.choice([0.6, 0.8])
+    cfg.skip_prob = 0.1
+    return cfg
 
 
 # ----------------------------------------------------------------------------- forests
@@ -122,6 +153,12 @@ def random_forest(rng: random.Random, T: int, max_per_frame: int, id_kind: str =
     if id_kind == "sparse":
         ids = sorted(rng.sample(range(1, 4 * n + 20), n))
         rng.shuffle(ids)
+    elif id_kind == "zero":
+        # ids that include 0 (legal without a label image: trackers that number spots
+        # from 0, candidate-graph style ids); 0 is a random node, often an ancestor
+        ids = list(range(0, n))
+        if rng.random() < 0.5:
+            rng.shuffle(ids)
     else:
         ids = list(range(1, n + 1))
     times: dict[int, int] = {}
@@ -187,12 +224,44 @@ def grow_blob(rng: random.Random, occupied: np.ndarray, size: int, start=None):
     return cells
 
 
+def thick_blob(rng, occupied):
+    """3-D blob that contains a full 2x2x2 cube (so that no principal moment of inertia
+    vanishes) and then grows by a random walk - concave shapes whose bounding boxes
+    overlap those of their neighbours are frequent."""
+    shape = occupied.shape
+    for _ in range(60):
+        lo = [rng.randrange(s - 1) for s in shape]
+        sl = tuple(slice(l, l + 2) for l in lo)
+        if occupied[sl].any():
+            continue
+        cube = [tuple(int(x) for x in (np.array(i) + np.array(lo)))
+                for i in np.argwhere(np.ones((2,) * len(shape), bool))]
+        occ2 = occupied.copy()
+        occ2[sl] = True
+        extra = []
+        seen = set(cube)
+        for _ in range(rng.choice([0, 2, 5, 9]) * 4):
+            base = rng.choice(cube + extra)
+            ax = rng.randrange(len(shape))
+            nxt = list(base)
+            nxt[ax] += rng.choice([-1, 1])
+            nxt = tuple(nxt)
+            if any(c < 0 or c >= s for c, s in zip(nxt, shape)) or nxt in seen or occ2[nxt]:
+                continue
+            seen.add(nxt)
+            extra.append(nxt)
+        return cube + extra
+    return []
+
+
 def make_segmentation(rng: random.Random, forest: Forest, frame_shape, dtype=np.int64,
-                      convexish: bool = False):
+                      convexish: bool = False, thick: bool = False):
     seg = np.zeros((forest.T, *frame_shape), dtype=dtype)
     for n, t in forest.times.items():
         occ = seg[t] != 0
-        if convexish:
+        if thick:
+            cells = thick_blob(rng, occ)
+        elif convexish:
             cells = box_blob(rng, occ)
         else:
             cells = grow_blob(rng, occ, rng.choice([1, 2, 4, 6, 9, 12]))
@@ -237,8 +306,9 @@ def build_graph(cfg: Config, forest: Forest, rng: random.Random, with_ids: bool,
         lids = rng.sample(range(1, 3 * len(comps) + 5), len(comps))
         tid = {n: tids[i] for i, c in enumerate(segs) for n in c}
         lid = {n: lids[i] for i, c in enumerate(comps) for n in c}
+    npi = (lambda x: np.int64(x)) if cfg.npint else (lambda x: x)
     for n, t in forest.times.items():
-        attrs: dict[str, Any] = {time_key: t}
+        attrs: dict[str, Any] = {time_key: npi(t)}
         if not cfg.seg:
             pos = [round(rng.uniform(0, s - 1), 3) for s in shape]
             if cfg.pos_mode == "axes":
@@ -247,8 +317,8 @@ def build_graph(cfg: Config, forest: Forest, rng: random.Random, with_ids: bool,
             else:
                 attrs["pos"] = pos
         if with_ids:
-            attrs["track_id"] = tid[n]
-            attrs["lineage_id"] = lid[n]
+            attrs["track_id"] = npi(tid[n])
+            attrs["lineage_id"] = npi(lid[n])
         g.add_node(n, **attrs)
     g.add_edges_from(forest.edges)
     return g
@@ -267,8 +337,10 @@ def build_tracks(cfg: Config):
     )
 
     rng = random.Random(cfg.seed)
-    forest = random_forest(rng, cfg.T, cfg.max_per_frame, cfg.id_kind, cfg.skip_prob)
-    seg = make_segmentation(rng, forest, cfg.frame_shape()) if cfg.seg else None
+    forest = random_forest(rng, cfg.T, cfg.max_per_frame, cfg.id_kind, cfg.skip_prob,
+                           p_empty=cfg.p_empty)
+    seg = make_segmentation(rng, forest, cfg.frame_shape(), thick=cfg.thick) \
+        if cfg.seg else None
     scale = cfg.scale_list()
     axes = ["z", "y", "x"] if cfg.ndim == 4 else ["y", "x"]
     build = cfg.build
@@ -329,8 +401,20 @@ def build_tracks(cfg: Config):
         tracks = tracks_from_df(df, segmentation=seg, scale=scale, node_name_map=nm)
     else:
         raise ValueError(build)
-    for k in cfg.extra:
-        tracks.enable_features([k])
+    if cfg.extra and cfg.seed % 2:
+        tracks.enable_features(list(cfg.extra))  # several features in one call
+    else:
+        for k in cfg.extra:
+            tracks.enable_features([k])
+    if cfg.rename:
+        # features stored under other keys (what an importer does when the user maps a
+        # computed feature to another name)
+        from funtracks.import_export._utils import rename_feature
+
+        for old, new in cfg.rename:
+            if old in tracks.annotators.features:
+                rename_feature(tracks, old, new)
+                tracks.enable_features([new])
     if cfg.custom:
         # registered custom (static) features, as an importer registers loaded columns
         from funtracks.features import Feature
